@@ -706,6 +706,12 @@ def run_scenario(ck, hbin, hchk, sc, ops, tag, seedtag):
             elif routine == "rope":
                 # current code first, then the code before fix 695c3e72c (F9)
                 cur, _, old = m.partition(" | old ")
+                old, _, f173 = old.partition(" | f173 ")
+                if res["prefix"] != cur.split(" oob ")[0] and f173 and res["prefix"] == f173.split(" fo ")[0] and not f173.endswith(" fo 1"):
+                    # the tree prices the chord by its densified pieces (the repair proposed for F173)
+                    ck.count("rope:agrees-with-the-F173-fixed-variant")
+                    issues += pending_fails.get(line, [])
+                    continue
                 if cur == "idx-error" or " oob 1" in cur:
                     issues.append(idx_err())
                     continue
@@ -1917,8 +1923,9 @@ MANIFEST = {
             "it is a violation). Round 7: every PathGeometric method is driven (keepAfter / keepBefore / getClosestIndex modelled and in lock-step, the "
             "rest judged against an independent Python reading), asymmetric objective (mechanical work) and Dubins space for the cost-aware "
             "routines, histories on one PathSimplifier object (freeStates on / off), a ptc sweep over every poll of simplify, boundary "
-            "paths (0 / 1 / 2 states, all equal, repeated states); open findings F171 (interpolate() on an empty path) and F172 "
-            "(perturbPath on fewer than two states).",
+            "paths (0 / 1 / 2 states, all equal, repeated states); F171 (interpolate() on an empty path) and F172 (perturbPath on fewer than two states) are fixed "
+            "and modelled as fixed; open finding F173 (ropeShortcutPath does not return under a non-additive objective; detected by a "
+            "checkMotion budget, no wall clock; proposed repair modelled as RopeEnv.chord).",
     "note": "Trusted: Lean kernel, the three standard axioms, the hand-written models outside the explored scripts, the harness "
             "(which compiles the two source files under test into its own translation unit, proxies the private rng_ and installs a "
             "scripted sampler), the Python oracle's geometry, boost's Dijkstra (assumed to return a shortest walk). IEEE rounding is "
